@@ -1,6 +1,6 @@
 ----------------------------- MODULE MC_Shaper -----------------------------
 (***************************************************************************)
-(* Two things in one bounded model.                                        *)
+(* Three things in one bounded model.                                      *)
 (*                                                                         *)
 (* mode = "run": exploration of the engine model of Shaper over every text *)
 (*   up to TextLen over a four-character alphabet (base letter, combining  *)
@@ -18,13 +18,32 @@
 (*   harness concretises each per script and runs it through every         *)
 (*   repository font of the script (spec -> impl); the runs that come back *)
 (*   are judged by Trace_Shaper.                                           *)
+(*                                                                         *)
+(* mode = "txt": generator of text-shape-class strings for the default     *)
+(*   shaper and its special-cased feature paths, every string up to TxtLen *)
+(*   over the eleven classes TextClasses: a letter that starts ligatures   *)
+(*   (Lf), a letter that is only a later ligature component (Li), a letter *)
+(*   with single / multiple / contextual substitutions (Lx), a precomposed *)
+(*   letter that ccmp decomposes (Ld), an ASCII digit (Dg), the ASCII      *)
+(*   slash of the fraction detector (Sl), U+2044 (Fs), space (Sp), two     *)
+(*   combining marks of different mark classes (Mk, Mb), a joiner (Zj).    *)
+(*   One CASE line per string, tagged fam = "txt" (syllable strings are    *)
+(*   tagged fam = "syl").  The harness maps each string onto the glyph     *)
+(*   roles of every synthesized font whose roles cover the string's        *)
+(*   classes, and onto the repository fonts of the default shaper.         *)
+(*   TextSanity states what the bound must contain for the special paths   *)
+(*   to be reachable at all: a fraction preceded by two ligating letters,  *)
+(*   a four-component ligature followed by a mark, a mark between          *)
+(*   ligature components.                                                  *)
 (***************************************************************************)
 EXTENDS Shaper, Json
 
-CONSTANTS TextLen, GsubSteps, GposSteps, GenLen
+CONSTANTS TextLen, GsubSteps, GposSteps, GenLen, TxtLen
 
 Classes == {"C", "Ra", "H", "N", "Mpre", "Mabv", "Mblw", "Mpst", "Msplit", "Anu",
             "ZWJ", "ZWNJ", "Dig", "Lone", "VS15", "VS16", "For", "DC"}
+
+TextClasses == {"Lf", "Li", "Lx", "Ld", "Dg", "Sl", "Fs", "Sp", "Mk", "Mb", "Zj"}
 
 \* the little font of the engine exploration
 LetterA == 65    MarkAcute == 769    ZWJ == \h200D    VS16 == \hFE0F
@@ -40,6 +59,7 @@ Init ==
   /\ cls = <<>> /\ mapped = <<>> /\ run = <<>> /\ err = FALSE /\ steps = 0
   /\ shapeOc = "Skipped" /\ posOc = "Skipped" /\ nPos = -1
   /\ \/ mode = "gen" /\ phase = "gen" /\ text = <<>>
+     \/ mode = "txt" /\ phase = "gen" /\ text = <<>>
      \/ /\ mode = "run" /\ phase = "map"
         /\ \E n \in 0 .. TextLen : \E t \in [1 .. n -> Alphabet] : text = t
 
@@ -47,6 +67,11 @@ Init ==
 Extend ==
   /\ mode = "gen" /\ Len(cls) < GenLen
   /\ \E c \in Classes : cls' = Append(cls, c)
+  /\ UNCHANGED <<mode, phase, text, mapped, run, err, steps, shapeOc, posOc, nPos>>
+
+ExtendText ==
+  /\ mode = "txt" /\ Len(cls) < TxtLen
+  /\ \E c \in TextClasses : cls' = Append(cls, c)
   /\ UNCHANGED <<mode, phase, text, mapped, run, err, steps, shapeOc, posOc, nPos>>
 
 \* ---- engine ---------------------------------------------------------------------
@@ -101,7 +126,7 @@ Positions ==
   /\ phase' = "done"
   /\ UNCHANGED <<mode, cls, text, mapped, run, err, steps, shapeOc>>
 
-Next == Extend \/ DoMap \/ GsubStep \/ Fail \/ EndGsub \/ GposStep \/ EndShape \/ Positions
+Next == Extend \/ ExtendText \/ DoMap \/ GsubStep \/ Fail \/ EndGsub \/ GposStep \/ EndShape \/ Positions
 Spec == Init /\ [][Next]_vars
 
 ---------------------------------------------------------------------------
@@ -122,5 +147,14 @@ Sanity ==
   /\ RunFailures(<<[gid |-> 4, chars |-> <<DottedCircle>>, pk |-> "none", pi |-> -1]>>, {65}, FALSE, 4) = {}
   /\ CallFailures("Ok", <<>>, "Panic", <<>>, "Skipped", -1, TRUE, 4) = {"Total.shape.Panic"}
 
-Emit == mode = "gen" => PrintT(<<"CASE", ToJson([cls |-> cls])>>)
+\* the bound of the text generator reaches the shapes the special paths need
+TextSanity ==
+  /\ TxtLen >= 5
+  /\ \A t \in {<<"Lf", "Lf", "Dg", "Sl", "Dg">>, <<"Ld", "Dg", "Sl", "Dg">>, <<"Lf", "Lf", "Lf", "Lf", "Mk">>,
+               <<"Lf", "Mk", "Lf", "Lf", "Mb">>, <<"Dg", "Fs", "Dg">>, <<"Lx", "Zj", "Lf">>} :
+        Len(t) <= TxtLen /\ \A k \in DOMAIN t : t[k] \in TextClasses
+
+Emit ==
+  /\ mode = "gen" => PrintT(<<"CASE", ToJson([fam |-> "syl", cls |-> cls])>>)
+  /\ mode = "txt" => PrintT(<<"CASE", ToJson([fam |-> "txt", cls |-> cls])>>)
 =============================================================================
